@@ -9,6 +9,7 @@ package consensus
 
 import (
 	"fmt"
+	"os"
 	"strings"
 	"testing"
 	"time"
@@ -163,6 +164,40 @@ func (net *vfNet) lagScenario(o *vfOut, rounds int) int {
 	return int(net.nodes[lag].cs.Round) - int(before)
 }
 
+// vfStaleLocks describes every correct node at height h: height/round/step, lock (round, block),
+// valid round, and whether it HOLDS - in its own vote sets - a +2/3 prevote majority for nil or for a
+// block other than its locked block at a round in (LockedRound, Round]. Returns whether some node
+// is in that state (a stale lock). Read-only.
+func vfStaleLocks(net *vfNet, h uint64) (bool, string) {
+	any := false
+	var sb strings.Builder
+	for _, nd := range net.nodes {
+		cs := nd.cs
+		lb := "-"
+		held := "-"
+		if cs.Height == h && cs.LockedBlock != nil {
+			lb = fmt.Sprintf("%x", cs.LockedBlock.Hash().Bytes()[:4])
+			for q := cs.LockedRound + 1; q <= cs.Round; q++ {
+				pv := cs.Votes.Prevotes(q)
+				if pv == nil {
+					continue
+				}
+				if id, ok := pv.TwoThirdsMajority(); ok && !cs.LockedBlock.HashesTo(id.Hash) {
+					what := "nil"
+					if !id.IsZero() {
+						what = fmt.Sprintf("%x", id.Hash.Bytes()[:4])
+					}
+					held = fmt.Sprintf("round-%d-for-%s", q, what)
+					any = true
+					break
+				}
+			}
+		}
+		fmt.Fprintf(&sb, " [node%d H=%d R=%d step=%d stored=%d lockedRound=%d lockedBlock=%s validRound=%d holds-polka-above-lock=%s]", nd.idx, cs.Height, cs.Round, cs.Step, nd.bo.Height(), cs.LockedRound, lb, cs.ValidRound, held)
+	}
+	return any, sb.String()
+}
+
 func (net *vfNet) signature() string {
 	var sb strings.Builder
 	for _, n := range net.nodes {
@@ -257,104 +292,133 @@ func TestVerifC04(t *testing.T) {
 		r := vfFork(seed, uint64(c))
 		n, stake, byz := vfPickConfig(r)
 		desc := fmt.Sprintf("seed=%d case=%d n=%d stake=%v byz=%v", seed, c, n, stake, vfSortedKeys(byz))
+		// the first case of every shard and ~8% of the others: the directed stale-lock scenario
+		s6 := c == 0 || vfFork(seed^0x57A1E10C, uint64(c)+1000003).Chance(8)
+		if env := os.Getenv("VERIF_C04_S6"); env == "all" {
+			s6 = true
+		} else if env == "none" {
+			s6 = false
+		}
 		vfGuard(o, "panic-in-consensus", func() string { return desc }, func() {
-			net, err := vfNewNet(r, vfKeys(r, n), stake, byz)
-			if err != nil {
-				t.Fatalf("network construction failed: %v", err)
-			}
-			var tot, bad int64
-			for i, p := range net.powers {
-				tot += p
-				if byz[i] {
-					bad += p
+			var net *vfNet
+			prefix, restarts := 0, 0
+			if s6 {
+				// directed prefix: stale lock after a double round skip (vfDirS6 in c01dir_test.go);
+				// the synchronous suffix below then has to decide
+				dr := vfFork(seed^0x57A1E10C, uint64(c))
+				d, dd, err := vfDirPlay(o, dr, "S6", fmt.Sprintf("seed=%d case=%d", seed, c))
+				if err != nil {
+					t.Fatalf("network construction failed: %v", err)
 				}
-			}
-			if 3*bad >= tot {
-				o.Stat("skipped.too-much-faulty-power")
-				return
-			}
-			// adversarial prefix
-			net.dropPct = r.Pick(0, 5, 20, 40)
-			net.dupPct = r.Pick(0, 10, 30)
-			prefix := r.Pick(0, 50, 300, 1000, 2000)
-			restarts := 0
-			if r.Chance(30) {
-				// directed prefix: a node that falls several rounds behind and catches up in one step
-				prefix = r.Pick(0, 50)
-				net.dropPct, net.dupPct = 0, 0
-				jumped := net.lagScenario(o, 2+r.Intn(3))
-				o.Stat(fmt.Sprintf("prefix.lag-scenario.jump=%d", jumped))
-				net.dropPct = r.Pick(0, 5)
-			}
-			for s := 0; s < prefix; s++ {
-				net.drain()
-				x := r.Intn(1000)
-				switch {
-				case x < 600:
-					if !net.deliverOne() {
-						net.fireTimeout(net.nodes[r.Intn(len(net.nodes))], true)
+				if d == nil || d.preFailed {
+					o.Viol("no-commit-in-synchronous-suffix", dd)
+					return
+				}
+				net, desc, r, prefix = d.net, dd, dr, 1
+				n, byz = len(net.keys), net.byz
+				o.Stat("prefix.stale-lock-scenario")
+				if d.derail == "" {
+					o.Stat("prefix.stale-lock-scenario.situation-reached")
+				}
+			} else {
+				var err error
+				net, err = vfNewNet(r, vfKeys(r, n), stake, byz)
+				if err != nil {
+					t.Fatalf("network construction failed: %v", err)
+				}
+				var tot, bad int64
+				for i, p := range net.powers {
+					tot += p
+					if byz[i] {
+						bad += p
 					}
-				case x < 800:
-					net.byzAct(o)
-				case x < 930:
-					net.fireTimeout(net.nodes[r.Intn(len(net.nodes))], r.Chance(60))
-				case x < 940:
-					if net.parts == nil {
-						var a, b []int
-						for i := range net.keys {
-							if r.Bool() {
-								a = append(a, i)
-							} else {
-								b = append(b, i)
+				}
+				if 3*bad >= tot {
+					o.Stat("skipped.too-much-faulty-power")
+					return
+				}
+				// adversarial prefix
+				net.dropPct = r.Pick(0, 5, 20, 40)
+				net.dupPct = r.Pick(0, 10, 30)
+				prefix = r.Pick(0, 50, 300, 1000, 2000)
+				if r.Chance(30) {
+					// directed prefix: a node that falls several rounds behind and catches up in one step
+					prefix = r.Pick(0, 50)
+					net.dropPct, net.dupPct = 0, 0
+					jumped := net.lagScenario(o, 2+r.Intn(3))
+					o.Stat(fmt.Sprintf("prefix.lag-scenario.jump=%d", jumped))
+					net.dropPct = r.Pick(0, 5)
+				}
+				for s := 0; s < prefix; s++ {
+					net.drain()
+					x := r.Intn(1000)
+					switch {
+					case x < 600:
+						if !net.deliverOne() {
+							net.fireTimeout(net.nodes[r.Intn(len(net.nodes))], true)
+						}
+					case x < 800:
+						net.byzAct(o)
+					case x < 930:
+						net.fireTimeout(net.nodes[r.Intn(len(net.nodes))], r.Chance(60))
+					case x < 940:
+						if net.parts == nil {
+							var a, b []int
+							for i := range net.keys {
+								if r.Bool() {
+									a = append(a, i)
+								} else {
+									b = append(b, i)
+								}
+							}
+							net.parts = [][]int{a, b}
+						} else {
+							net.parts = nil
+						}
+					case x < 950:
+						// restart a node from its database. Without the WAL (C05's subject) a node that
+						// has already signed at its height would forget its votes and double-sign, which
+						// is a fault, not a restart: only nodes that signed nothing yet at their
+						// current height are restarted here.
+						pos := r.Intn(len(net.nodes))
+						signed := false
+						for _, sr := range net.nodes[pos].pv.log {
+							if sr.h == net.nodes[pos].cs.Height {
+								signed = true
 							}
 						}
-						net.parts = [][]int{a, b}
-					} else {
-						net.parts = nil
-					}
-				case x < 950:
-					// restart a node from its database. Without the WAL (C05's subject) a node that
-					// has already signed at its height would forget its votes and double-sign, which
-					// is a fault, not a restart: only nodes that signed nothing yet at their
-					// current height are restarted here.
-					pos := r.Intn(len(net.nodes))
-					signed := false
-					for _, sr := range net.nodes[pos].pv.log {
-						if sr.h == net.nodes[pos].cs.Height {
-							signed = true
+						if signed {
+							continue
 						}
-					}
-					if signed {
-						continue
-					}
-					if err := net.restart(pos); err != nil {
-						o.Viol("restart-failed", desc+" "+err.Error())
-						return
-					}
-					restarts++
-					o.Stat("prefix.restart")
-					if vfEnvInt("VERIF_DEBUG", 0) > 0 {
-						nd := net.nodes[pos]
-						fmt.Printf("RESTART step=%d node=%d stored=%d csHeight=%d lastBlockID=%v\n", s, nd.idx, nd.bo.Height(), nd.cs.Height, nd.cs.state.LastBlockID)
-					}
-				case x < 958:
-					lagPos := r.Intn(len(net.nodes))
-					before := net.nodes[lagPos].cs.Round
-					net.regossipNewestFirst(lagPos)
-					if net.nodes[lagPos].cs.Round > before+1 {
-						o.Stat("prefix.multi-round-skip")
-					}
-				default:
-					for k := 0; k < 30; k++ {
-						net.drain()
-						if !net.deliverOne() {
-							break
+						if err := net.restart(pos); err != nil {
+							o.Viol("restart-failed", desc+" "+err.Error())
+							return
 						}
+						restarts++
+						o.Stat("prefix.restart")
+						if vfEnvInt("VERIF_DEBUG", 0) > 0 {
+							nd := net.nodes[pos]
+							fmt.Printf("RESTART step=%d node=%d stored=%d csHeight=%d lastBlockID=%v\n", s, nd.idx, nd.bo.Height(), nd.cs.Height, nd.cs.state.LastBlockID)
+						}
+					case x < 958:
+						lagPos := r.Intn(len(net.nodes))
+						before := net.nodes[lagPos].cs.Round
+						net.regossipNewestFirst(lagPos)
+						if net.nodes[lagPos].cs.Round > before+1 {
+							o.Stat("prefix.multi-round-skip")
+						}
+					default:
+						for k := 0; k < 30; k++ {
+							net.drain()
+							if !net.deliverOne() {
+								break
+							}
+						}
+						net.regossip(r.Intn(len(net.nodes)), r.Chance(15))
 					}
-					net.regossip(r.Intn(len(net.nodes)), r.Chance(15))
 				}
 			}
-			if r.Bool() {
+			if !s6 && r.Bool() {
 				// the nodes that fell behind hear the newest round first
 				for pos := range net.nodes {
 					before := net.nodes[pos].cs.Round
@@ -368,6 +432,9 @@ func TestVerifC04(t *testing.T) {
 			net.parts = nil
 			net.dropPct, net.dupPct = 0, 0
 			noisy := r.Bool()
+			if s6 {
+				noisy = false // the faulty validators stay silent: that is their best strategy here
+			}
 			start := map[int]uint64{}
 			startRound := map[int]uint32{}
 			for _, nd := range net.nodes {
@@ -467,6 +534,7 @@ func TestVerifC04(t *testing.T) {
 					}
 				}
 				sig := "no-commit-in-synchronous-suffix"
+				seqsDisagree := false
 				if restarts > 0 {
 					// do the nodes still agree about whose turn it is? (F4: a restarted node loads
 					// Validators with NextValidators' priorities)
@@ -484,7 +552,16 @@ func TestVerifC04(t *testing.T) {
 						seqs[q] = true
 					}
 					sig = "no-commit-in-synchronous-suffix-after-restart"
+					seqsDisagree = len(seqs) > 1
 					detail += fmt.Sprintf(" proposer-sequences-in-disagreement=%v", len(seqs) > 1)
+				}
+				// F36: some correct node is locked on a block although its OWN vote sets hold +2/3
+				// prevotes for nil or another block at a round in (LockedRound, Round] (it skipped over
+				// that round, so addVote's unlock test never ran with vote.Round <= cs.Round and no
+				// further prevote of that round can be added)
+				if stale, sd := vfStaleLocks(net, goal); stale && !seqsDisagree {
+					sig = "no-commit-after-stale-lock-double-skip"
+					detail = sd
 				}
 				o.Viol(sig, fmt.Sprintf("%s prefix=%d restarts=%d goal=%d bound=%d rounds:%s", desc, prefix, restarts, goal, bound, detail))
 			}
